@@ -131,6 +131,58 @@ def statement(checking, data):
     return None
 
 
+def want16(data):
+    return struct.pack("!H", ref16(bytes(data)))
+
+
+def want64(data):
+    w = ref64(bytes(data))
+    return (w >> 32, w & 0xFFFFFFFF)
+
+
+def reuse_statement(checking, first, second, kind):
+    """the checksum is a function of the CONTENT of its argument, not of the object or of earlier calls:
+    one mutable buffer is checked, modified in place to `second`, and checked again with no other call in
+    between (kind: bytearray | memoryview); or two equal-but-distinct / identical objects are checked in a row.
+    Returns a finding dict or None."""
+    first, second = bytes(first), bytes(second)
+    for fn, want, key, thm in ((checking.crc64, want64, "crc64-reused-buffer", "C41.Props.crc64_is_we"),
+                               (checking.crc16, want16, "crc16-reused-buffer", "C41.Props.crc16_is_genibus")):
+        try:
+            if kind == "distinct-equal":
+                a, b = bytearray(first), bytearray(first)
+                r1, r2, second_ = fn(a), fn(b), first
+            elif kind == "same-bytes-twice":
+                a = bytes(first)
+                r1, r2, second_ = fn(a), fn(a), first
+            else:
+                buf = bytearray(first)
+                arg = memoryview(buf) if kind == "memoryview" and len(second) == len(first) else buf
+                r1 = fn(arg)
+                if len(second) == len(first):
+                    buf[:] = second                # in place, same object
+                else:
+                    del buf[:]
+                    buf.extend(second)             # in place, grows / shrinks
+                r2, second_ = fn(arg), second
+            r1 = bytes(r1) if fn is checking.crc16 else tuple(r1)
+            r2 = bytes(r2) if fn is checking.crc16 else tuple(r2)
+        except Exception as ex:  # noqa
+            return {"key": key, "buffer": kind, "first_content_hex": first.hex(), "second_content_hex": second.hex(),
+                    "observed": "raises %r" % ex, "expected": "two checksums", "contradicts": thm}
+        for r, content, which in ((r1, first, "first call"), (r2, second_, "second call")):
+            if r != want(content):
+                fmt = (lambda x: x.hex()) if fn is checking.crc16 else (lambda x: ["%08x" % v for v in x])
+                return {"key": key, "buffer": kind, "first_content_hex": first.hex(),
+                        "second_content_hex": bytes(second_).hex(), "failing_call": which,
+                        "observed": fmt(r), "expected": fmt(want(content)),
+                        "what": "%s called twice in a row on the same %s object, content changed in place between the calls"
+                                % (fn.__name__, kind) if kind in ("bytearray", "memoryview") else
+                                "%s called twice in a row (%s)" % (fn.__name__, kind),
+                        "contradicts": thm}
+    return None
+
+
 def search(ctx, checking):
     n = [0]
 
@@ -144,6 +196,19 @@ def search(ctx, checking):
         f = one([a])
         if f:
             return f, n[0]
+    # mutable buffers reused across consecutive calls (content changed in place between the calls),
+    # equal-but-distinct objects, the same object twice -- smallest contents first
+    pairs = [(b"", b"\x00"), (b"\x00", b"\x01"), (b"\x01", b"\x00"), (b"\x00", b""), (b"a", b"ab"), (b"ab", b"a"),
+             (b"123456789", b"123456780"), (b"123456789", b"1234567890"), (b"\xff" * 4, b"\xff" * 3 + b"\xfe")]
+    for a in range(0, 256, 17):
+        pairs.append((bytes([a]), bytes([a ^ 0x80])))
+        pairs.append((bytes([a, 255 - a]), bytes([255 - a, a])))
+    for first, second in pairs:
+        for kind in ("bytearray", "memoryview", "distinct-equal", "same-bytes-twice"):
+            n[0] += 1
+            f = reuse_statement(checking, first, second, kind)
+            if f:
+                return f, n[0]
     f = one(b"123456789")
     if f:
         return f, n[0]
@@ -155,7 +220,19 @@ def search(ctx, checking):
     rng = ctx.rng
     for k in range(ctx.n(300, 3000)):
         ln = rng.randint(3, 1024 if k % 10 == 0 else 40)
-        f = one(bytes(rng.randrange(256) for _ in range(ln)))
+        d = bytes(rng.randrange(256) for _ in range(ln))
+        f = one(d)
+        if not f and k % 3 == 0:          # random reused buffers: flip a byte / append / truncate in place
+            m = bytearray(d)
+            r = rng.random()
+            if r < 0.5:
+                m[rng.randrange(len(m))] ^= 1 << rng.randrange(8)
+            elif r < 0.75:
+                m.append(rng.randrange(256))
+            else:
+                del m[-1]
+            n[0] += 1
+            f = reuse_statement(checking, d, bytes(m), rng.choice(["bytearray", "memoryview"]))
         if f:
             return f, n[0]
     return None, n[0]
